@@ -1,9 +1,14 @@
 #!/bin/bash
-# Builds the framework offline from files on disk (run once after a fresh restore).
+# Builds the framework offline from files on disk (run once after a fresh restore). Also warms the Go
+# build cache for the three harness flavours so that every check's own rebuild is incremental.
 set -e
 cd /verif
 export GOFLAGS=-mod=mod GOPROXY=off GOSUMDB=off GOTOOLCHAIN=local CGO_ENABLED=0
-mkdir -p bin .work evidence/replays
-go1.26 build -tags verif -o bin/vh ./cmd/vh
+mkdir -p bin .work/run evidence/replays
 go1.26 build -o bin/mkoverlay ./cmd/mkoverlay
+go1.26 build -tags verif -o bin/vh ./cmd/vh
+go1.26 build -o bin/murex github.com/lmorg/murex
+bin/mkoverlay /repo .work/overlay shim hooks > .work/mkoverlay-setup.log
+go1.26 build -tags verif -overlay .work/overlay/overlay.json -o bin/vhs ./cmd/vhs
+CGO_ENABLED=1 go1.26 build -tags "verif vrace" -race -gcflags=verif/shim/...=-race=false -overlay .work/overlay/overlay.json -o bin/vhs-race ./cmd/vhs
 echo setup ok
